@@ -232,7 +232,51 @@ func TestBoundedC05BlockExec(t *testing.T) {
 			fail("%s ends with\n   %s\nthe proposer with\n   %s", v, got, want)
 		}
 	}
-	fmt.Printf("BOUNDED-CASES: %d block checks (2 blocks, 7 transactions: transfers, contract creation, contract call, insufficient funds; proposer + %d kinds of validator), %d failures\n", cases, len(variants), nfail)
+	// The verdict on a block must not depend on what a validator's mempool cache holds: the sender of a plain transfer
+	// is put on the (shared) blacklist while its transaction sits in the proposer's pool - the proposer path does not
+	// consult the blacklist, the validator path does - and two validators with the same committed state, one holding
+	// the transaction in its mempool cache, one not, must give the same answer.
+	{
+		v1, v2 := open("validator without the transaction", nil), open("validator with the transaction cached", nil)
+		for _, n := range []*c05xNode{v1, v2} {
+			fund(n)
+			for _, b := range []*types.Block{b1, b2} {
+				bz, _ := ser.EncodeToBytes(b)
+				nb := new(types.Block)
+				ser.DecodeBytes(bz, nb)
+				if !n.app.CheckBlock(nb) {
+					fail("blacklist scenario: block %d refused", b.Height)
+				}
+				commit(n, nb)
+			}
+		}
+		txBad := sign(types.NewTransaction(2, fresh2, one, fee(one), gp, nil), "B")
+		b3 := propose(3, types.Txs{txBad}, 1507737720)
+		types.BlacklistInstance.Init(dbm.NewMemDB())
+		types.BlacklistInstance.DealBlackAddrsChanges([]byte(`{"ret":"addBlackAddress` + addrB.Hex() + `"}`))
+		if err := types.BlacklistInstance.UpdateBlacklist(); err != nil || !types.BlacklistInstance.IsBlackAddress(addrB) {
+			fail("blacklist scenario: could not blacklist the sender (%v)", err)
+		}
+		cp := *txBad
+		cp.From()
+		v2.mp.cache[txBad.Hash()] = &cp
+		var verdict [2]bool
+		for i, n := range []*c05xNode{v1, v2} {
+			bz, _ := ser.EncodeToBytes(b3)
+			nb := new(types.Block)
+			ser.DecodeBytes(bz, nb)
+			cases++
+			verdict[i] = n.app.CheckBlock(nb)
+		}
+		if verdict[0] != verdict[1] {
+			fail("a block with a transfer of a blacklisted sender: the validator that never saw the transaction says %v, the validator that has it in its mempool cache says %v", verdict[0], verdict[1])
+		}
+		if verdict[0] {
+			fail("a block with a transfer of a blacklisted sender is accepted by a validator")
+		}
+		types.BlacklistInstance.Init(dbm.NewMemDB())
+	}
+	fmt.Printf("BOUNDED-CASES: %d block checks (2 blocks, 7 transactions: transfers, contract creation, contract call, insufficient funds; proposer + %d kinds of validator; one block of a blacklisted sender with and without the mempool cache), %d failures\n", cases, len(variants), nfail)
 	if nfail > 0 {
 		t.Fatalf("%d failures", nfail)
 	}
